@@ -54,7 +54,7 @@ func TestC10_P_Deterministic(t *testing.T) {
 	maxLen := scale(2048, 32768)
 	maxN := scale(200, 2000)
 	rapid.Check(t, func(t *rapid.T) {
-		kind := rapid.SampledFrom([]string{"file", "file", "sharded", "sharded", "plain", "quick"}).Draw(t, "kind")
+		kind := rapid.SampledFrom([]string{"file", "file", "file", "sharded", "sharded", "sharded", "plain", "plain", "quick", "quick", "threshold"}).Draw(t, "kind")
 		var results []buildResult
 		var variants []string
 		run := func(variant string, f func(st *Store) (cid.Cid, uint64, error)) {
@@ -104,12 +104,20 @@ func TestC10_P_Deterministic(t *testing.T) {
 			nt = chunks >= 3 && (ck.CS == 0 || minFrag < ck.CS)
 			fp = fmt.Sprintf("file %s w=%d blocks=%s %s", ck.Class, w, bucket(chunks), wrap)
 		} else {
-			names, _ := genNames(t, nameOpts{Max: maxN})
+			var es []entrySpec
 			fanout := genFanout(t)
 			salt := rapid.IntRange(0, 50).Draw(t, "salt")
-			es := make([]entrySpec, len(names))
-			for i, n := range names {
-				es[i] = entryFor(n, salt)
+			if kind == "threshold" {
+				// ~1150 entries of mixed link lengths whose size estimate sits exactly at the auto-shard threshold -1/0/+1:
+				// the plain-vs-sharded decision must not depend on the order of the entries
+				es = c02ThresholdSet(shardThreshold+rapid.IntRange(-1, 1).Draw(t, "delta"), salt)
+				kind = rapid.SampledFrom([]string{"plain", "quick"}).Draw(t, "thrBuilder")
+			} else {
+				names, _ := genNames(t, nameOpts{Max: maxN})
+				es = make([]entrySpec, len(names))
+				for i, n := range names {
+					es[i] = entryFor(n, salt)
+				}
 			}
 			how := kind
 			build := func(order []entrySpec) func(st *Store) (cid.Cid, uint64, error) {
